@@ -244,7 +244,7 @@ fn delay_us(t: Tier) -> &'static [u64] {
 	t.pick(&[2000][..], &[500, 2000, 3300][..])
 }
 const NONE: usize = usize::MAX;
-const SCENES: [&str; 12] = ["sound", "delayed-start", "clock", "tween", "delay", "filter", "eq", "delay, rate changed and changed back", "reverb early reflections", "delay in the feedback loop of a one-frame delay", "lfo", "streaming sound"];
+const SCENES: [&str; 13] = ["sound", "delayed-start", "clock", "tween", "delay", "filter", "eq", "delay, rate changed and changed back", "reverb early reflections", "delay in the feedback loop of a one-frame delay", "lfo", "streaming sound", "long delayed start"];
 const LFO_HZ: [f64; 3] = [3.0, 113.0, 1130.0];
 const LFO_WAVES: [&str; 4] = ["sine", "triangle", "saw", "pulse(0.5)"];
 const PLACEMENTS: [&str; 4] = ["main", "sub", "nested", "send"];
@@ -349,7 +349,7 @@ impl Check for C16 {
 		}
 	}
 	fn rule(&self) -> String {
-		"A: 12 scenes (incl. the sound scene with a streaming sound, a delay whose rate changes and changes back, the reverb's early reflections, a delay nested in the feedback loop of a one-frame delay, and LFOs of 3 / 113 / 1130 Hz x 4 waveforms read through a track volume) x r1 x r2 x change moment {never, before callback 0..4} x internal buffer x {sound rate | delay time x placement main/sub/nested/send}; times in true seconds = sum of frames / device rate in force (the harness plays the backend and knows it; the dt handed to process is checked against it); tolerances: one device frame (+ one processing chunk where kira quantises to chunks: clock start, delayed start, tween); filter/EQ corner gain compared with the 48 kHz rendering. B: all histories <= depth over {callback, change rate, drop the parents' handles, 7 track-creation paths each with probe effect + 2 ms delay carrying a probe as feedback effect}, epilogue adopts and measures every track; oracle: on every process call the rate last told == device rate in force == 1/dt, echo time == delay_time +- 1 frame. C: E2 schedules of add-track || change+callback. states = distinct (rate, per-track adopted/told) model states; non-trivial = grid runs in which the measured event was observed / histories with at least one added track whose probe was processed".into()
+		"A: 13 scenes (incl. a 200 ms delayed start at constant rates, the sound scene with a streaming sound, a delay whose rate changes and changes back, the reverb's early reflections, a delay nested in the feedback loop of a one-frame delay, and LFOs of 3 / 113 / 1130 Hz x 4 waveforms read through a track volume) x r1 x r2 x change moment {never, before callback 0..4} x internal buffer x {sound rate | delay time x placement main/sub/nested/send}; times in true seconds = sum of frames / device rate in force (the harness plays the backend and knows it; the dt handed to process is checked against it); tolerances: one device frame (+ one processing chunk where kira quantises to chunks: clock start, delayed start, tween); filter/EQ corner gain compared with the 48 kHz rendering. B: all histories <= depth over {callback, change rate, drop the parents' handles, 7 track-creation paths each with probe effect + 2 ms delay carrying a probe as feedback effect}, epilogue adopts and measures every track; oracle: on every process call the rate last told == device rate in force == 1/dt, echo time == delay_time +- 1 frame. C: E2 schedules of add-track || change+callback. states = distinct (rate, per-track adopted/told) model states; non-trivial = grid runs in which the measured event was observed / histories with at least one added track whose probe was processed".into()
 	}
 	fn assumptions(&self) -> Vec<String> {
 		vec![
@@ -475,6 +475,13 @@ fn grid_case(t: Tier, scene: usize, r1: u32, ctx: &mut Ctx) {
 					let r = catch(|| match scene {
 						0 => scene_sound(&p, a as u32, false, &mut fails),
 						11 => scene_sound(&p, a as u32, true, &mut fails),
+						12 => {
+							if p.k != NONE {
+								Ok((false, 0))
+							} else {
+								scene_start_long(&p, &mut fails)
+							}
+						}
 						1 => scene_start(&p, false, &mut fails),
 						2 => scene_start(&p, true, &mut fails),
 						3 => scene_tween(&p, &mut fails),
@@ -664,6 +671,40 @@ fn scene_start(p: &Plan, clock: bool, fails: &mut Vec<(String, String)>) -> Scen
 		let ticks = ct.ticks as f64 + ct.fraction;
 		if (ticks - 200.0 * total).abs() > 1e-6 {
 			fails.push((format!("clock: time != ticks_per_second x elapsed seconds :: {}", p.phase()), format!("after {:.9} s of audio the 200 ticks/s clock reads {:.9} ticks, expected {:.9}", total, ticks, 200.0 * total)));
+		}
+	}
+	drop(h);
+	Ok((seen, hash64(&oh)))
+}
+
+/// StartTime::Delayed(200 ms) at a constant device rate: 80 callbacks of 2.5 ms count the delay down in hundreds of short
+/// passes; the start is still on time (an error per pass adds up)
+fn scene_start_long(p: &Plan, fails: &mut Vec<(String, String)>) -> SceneObs {
+	let ncb = 90;
+	let mut w = world(p.r1, p.ibs, log_cap(p, ncb), None);
+	warm(&mut w)?;
+	let data = dc_sound(30).start_time(StartTime::Delayed(Duration::from_millis(200)));
+	let mut h = None;
+	drive(&mut w, p, ncb, &mut |w, j| {
+		if j == 0 {
+			h = w.m.play(data.clone()).ok();
+		}
+	})?;
+	let rec = w.rec();
+	tap_verdict(&w, p, fails);
+	let name = "delayed start: sound with StartTime::Delayed(200 ms)";
+	let mut seen = false;
+	let mut oh = 0;
+	match rec.first(0, rec.v.len(), |v| v > 0.25) {
+		None => fails.push((format!("{} never starts :: {}", name, p.phase()), String::new())),
+		Some(i) => {
+			seen = true;
+			let got = rec.t[i];
+			let tol = p.frame_s() + p.chunk_s() + 2.0 / 48000.0;
+			oh = q(got - 0.2, p.chunk_s());
+			if (got - 0.2).abs() > tol {
+				fails.push((format!("{} starts at the wrong time in seconds :: {}", name, p.phase()), format!("started at {:.6} s, expected 0.200000 s +- {:.6} (one frame + one processing chunk)", got, tol)));
+			}
 		}
 	}
 	drop(h);
